@@ -146,6 +146,13 @@ def run(prog, rep):
                 if l is None or l["k"] != "member" or not l.get("rec") or r is None or r["k"] != "call":
                     continue
                 cn = r.get("callee")
+                if cn is None and r.get("fnptr") is not None:
+                    # made by a call through one of the object's own function slots (`obj->context = obj->create ()`): owned, and released
+                    # through a sibling slot
+                    fp = strip_casts(r["fnptr"])
+                    if fp is not None and fp["k"] == "member" and root_var(fp) == root_var(l):
+                        owned.setdefault(l["rec"], {}).setdefault(l["field"], []).append((fn.name, "its %s slot" % fp["field"], line(n)))
+                    continue
                 if cn in T.fresh or cn in ACQ_FIELD_CALLS:
                     if cn in ("p_list_append", "p_list_prepend"):
                         # a list head kept in the object (`obj->items = p_list_append (obj->items, x)`): the nodes belong to the object
@@ -450,7 +457,8 @@ def unreleased_paths(u, fr, T, fields):
                     continue
                 if a2["k"] == "ref" and a2.get("decl") == "local":
                     a2 = fv.resolve(a2) or a2
-                if a2["k"] == "member" and root_var(a2) == p0 and releasing(cn):
+                slot = cn is None and c.get("fnptr") is not None and strip_casts(c["fnptr"])["k"] == "member" and root_var(c["fnptr"]) == p0
+                if a2["k"] == "member" and root_var(a2) == p0 and (releasing(cn) or slot):
                     top = a2
                     while strip_casts(top["base"])["k"] == "member":
                         top = strip_casts(top["base"])
@@ -564,6 +572,8 @@ def released_fields(u, fr, T, seen=None):
                     top = strip_casts(top["base"])
                 if cn in FIELD_RELEASERS or cn in T.release or (cn or "").endswith("_free") or (cn or "").endswith("_close") or cn in ("p_socket_close",):
                     out.add(top["field"])
+                elif cn is None and c.get("fnptr") is not None and strip_casts(c["fnptr"])["k"] == "member" and root_var(c["fnptr"]) == p0:
+                    out.add(top["field"])          # handed to one of the object's own slots (`hash->free (hash->context)`)
             if a2["k"] == "ref" and a2["name"] == p0 and cn in u.functions and cn != fr.name:
                 out |= released_fields(u, u.functions[cn], T, seen)
         if cn in ("p_socket_close",) and c["args"] and root_var(c["args"][0]) == p0:
@@ -575,6 +585,8 @@ def released_fields(u, fr, T, seen=None):
 RENAME_LOCALS = ['src/pdir-posix.c', 'src/pshm-posix.c', 'src/psemaphore-posix.c', 'src/plibraryloader-posix.c']
 
 SELFTEST = [
+    dict(id="crypto-hash-free-forgets-context", file="src/pcryptohash.c", expect="C20.1",
+         old="\thash->free (hash->context);\n", new=""),
     dict(id="spinlock-free-forgets-object", file="src/pspinlock-c11.c", expect="C20.1",
          old="\tp_free (spinlock);", new="\t(void) spinlock;"),
     dict(id="socket-address-free-inverted-guard", file="src/psocketaddress.c", expect="C20.1",
